@@ -164,6 +164,7 @@ def install_invariant(ctx):
 
     def sg_is_group(self):
         check_instance(mon, self)
+        ctx.hold_object("sg.sg(%s)" % getattr(self, "no", "?"), self, ("rot", "trans", "syscond"))
     c = contracts.invariant(sgmod, "sg", sg_is_group)
     ctx.counters["sg.sg(invariant)"] = c
     return c
